@@ -136,6 +136,28 @@ pub fn check(c: &Case, st: &mut Stats) -> CheckResult {
             }
         }
     }
+    // 3c. cross-format confusion: the formatted input itself presented as a pure-mode message with an
+    // empty context (a verifier that also tries the bare-message form would accept), and single-byte
+    // changes at either end of context and message
+    {
+        let fm = rf::format_message(mode, &m, &ctx);
+        alt("formatted_input_as_message_empty_ctx", &fm, &[], Mode::Pure, true, st)?;
+        if !ctx.is_empty() {
+            let mut c2 = ctx.clone();
+            let n = c2.len();
+            c2[n - 1] ^= 1;
+            alt("ctx_last_byte_changed", &m, &c2, mode, n >= 254, st)?;
+            let mut c3 = ctx.clone();
+            c3[0] ^= 0x80;
+            alt("ctx_first_byte_changed", &m, &c3, mode, false, st)?;
+        }
+        if !m.is_empty() {
+            let mut m2 = m.clone();
+            let n = m2.len();
+            m2[n - 1] ^= 1;
+            alt("msg_last_byte_changed", &m2, &ctx, mode, false, st)?;
+        }
+    }
     // 4. every other pre-hash function / mode
     for other in MODES {
         if other != mode {
